@@ -63,7 +63,11 @@ def descs():
         "xds": dict(kind="dataset", vn=[None], vd=[None],
                     vars={"v": ((), lambda v: v["v"].values),
                           "w": (("t",), lambda v: v["w"].values)},
-                    vc={"t": [10, 20]}),
+                    vc={"t": [10, 20]}, attrs={"note": "hello", "n": 3}),
+        # (the labels of the internal dimension differ from result to result)
+        "xds-tvar": dict(kind="dataset_tv", vn=[None], vd=[None], tvar=True,
+                         vars={"v": ((), lambda v: v["v"].values),
+                               "w": (("t",), lambda v: v["w"].values)}),
         "xds-const": dict(kind="dataset_nc", vn=[None], vd=[None],
                           constants={"t": [10, 20]},
                           vars={"v": ((), lambda v: v["v"].values),
@@ -73,7 +77,8 @@ def descs():
                     vc={"t": [10, 20]}),
         "xdict": dict(kind="dict", vn=[None], vd=[None],
                       vars={"v": ((), lambda v: v["v"]),
-                            "w": ((), lambda v: v["w"])}),
+                            "w": ((), lambda v: v["w"])},
+                      attrs={"note": "kept"}),
         "attrs": dict(kind="num", vn=["out"], vd=[None],
                       constants={"k": 7}, resources={"r": 9},
                       attrs={"note": "hello", "n": 3},
@@ -411,6 +416,30 @@ def check_case(case):
                 vio.append((key("label-missing"), "%s has no entry labelled "
                             "%r" % (var, s)))
                 break
+            if d.get("tvar") and idims and \
+                    xfn.enc(dict(s, **consts, **res)) in full:
+                # each result brings its own labels along the internal
+                # dimension: its numbers sit at those, nothing at the others
+                R = value(s)
+                own = R["t"].values.tolist()
+                da = ds[var].sel(s)
+                try:
+                    got_own = da.sel(t=own).values
+                except KeyError:
+                    vio.append((key("label-missing"), "%s.sel(%r) has no "
+                                "labels t=%r" % (var, s, own)))
+                    break
+                rest = [t_ for t_ in ds["t"].values.tolist() if t_ not in own]
+                if not np.array_equal(got_own, R[var].values) or (
+                        rest and not np.isnan(da.sel(t=rest).values).all()):
+                    vio.append((key("value"), "%s.sel(%r) is %r over t=%r, "
+                                "the function returned %r at t=%r (strat %s)"
+                                % (var, s, da.values.tolist(),
+                                   ds["t"].values.tolist(),
+                                   R[var].values.tolist(), own, strat)))
+                    break
+                npts += 1
+                continue
             if xfn.enc(dict(s, **consts, **res)) in full:
                 w = np.asarray(get(value(s)))
                 if cell.shape != w.shape or not np.array_equal(cell, w):
